@@ -810,14 +810,14 @@ def mk_case(program: str, prio, cp, debug=2, strict=True):
 class Profile:
     """Recorded sequential run of a program (threads in priority order, no preemption)."""
 
-    def __init__(self, case):
+    def __init__(self, case, keep_log=False):
         for _attempt in range(4):
             rep = execute(dict(case, sched={"prio": case["sched"]["prio"], "cp": []}), record=True)
             if rep.status == "ok" and not rep.fallbacks:
                 break  # (a liveness fallback can fire spuriously when the machine is heavily oversubscribed)
         else:
             raise env.HarnessError(f"sequential profile run ended with {rep.status}, fallbacks={rep.fallbacks}")
-        self.log = rep.log
+        self.log = rep.log if keep_log else None  # ~1 MB per program: not kept for the thousands of random programs
         self.total = rep.steps
         first = case["sched"]["prio"][0]
         self.first_steps = rep.per_thread[first]
@@ -833,6 +833,8 @@ def profile(case) -> Profile:
     key = json.dumps([case["family"], case["threads"], case["debug"], case["strict"], case["sched"]["prio"]])
     p = _PROFILES.get(key)
     if p is None:
+        if len(_PROFILES) >= 512:
+            _PROFILES.clear()
         p = _PROFILES[key] = Profile(case)
     return p
 
@@ -939,8 +941,8 @@ def _doubles(tier):
 
 def _selfcheck(ctx):
     case = mk_case("tree_load2", (0, 1), [])
-    a = Profile(case)
-    b = Profile(case)
+    a = Profile(case, keep_log=True)
+    b = Profile(case, keep_log=True)
     if a.log != b.log:
         raise env.HarnessError("two sequential scheduled runs of the same program produced different yield logs: "
                                "the scheduler is not deterministic here")
